@@ -444,6 +444,32 @@ def rule_rotten_flag(ctx: Ctx) -> RuleResult:
         path = cfg.witness_path(cfg.entry, [cfg.exit], avoid=stores, labels=("n", "T", "F"))
         last_test = next((n for n in reversed(path or []) if n.kind == "test"), None)
         rr.add(finding("PASS", fi, last_test.stmt if last_test is not None else fi.node, f"a path through push_cursor (via `{norm(last_test.ast, 40) if last_test is not None else '?'}`) writes a character without deciding is_rotten_cursor: a wrap left pending from an earlier state fires on a later character", construct="path without is_rotten_cursor store"))
+    # in the autowrap arm "no wrap pending" is only true while the new column is inside the grid: a store of the
+    # constant False must be control-dependent on a test that puts the column below self.width; a store reached with
+    # a column the function itself set (x = 1 after the wrap) has to compare it with the width (one-column grids)
+    auto = [t for t in cfg.nodes if t.kind == "test" and "autowrap" in ast.unparse(t.ast)]
+    for st in stores:
+        if not (isinstance(st.ast.value, ast.Constant) and st.ast.value.value is False):
+            continue
+        if not auto or not all(st not in ExcEngine._reach_without_edge(cfg, t, "T") for t in auto):
+            continue
+        bounded = False
+        for t in cfg.nodes:
+            if t.kind != "test" or t in auto:
+                continue
+            for lab in ("T", "F"):
+                if st in ExcEngine._reach_without_edge(cfg, t, lab):
+                    continue
+                for c in ast.walk(t.ast):
+                    if isinstance(c, ast.Compare) and len(c.ops) == 1 and "width" in ast.unparse(c) and not isinstance(t.ast, ast.BoolOp):
+                        op = type(c.ops[0])
+                        left_w = "width" in ast.unparse(c.left)
+                        below = (op in (ast.Lt, ast.LtE) and not left_w) or (op in (ast.Gt, ast.GtE) and left_w)
+                        if (lab == "T") == below:
+                            bounded = True
+        rr.inst(f"push_cursor: {norm(st.stmt, 40)}", True, {"store": norm(st.stmt, 50), "column_known_inside_grid": bounded})
+        if not bounded:
+            rr.add(finding("PASS", fi, st.stmt, f"`{norm(st.stmt, 50)}` in the autowrap arm declares that no wrap is pending on paths where nothing has shown the new column to be left of self.width (after a wrap the column is the constant 1): on a grid one column wide the cursor is constrained back onto the cell just written and the next character overwrites it", construct="pending wrap cleared without comparing the column with the width"))
     return rr
 
 
@@ -760,6 +786,8 @@ from ..mutants import Mut  # noqa: E402
 
 _V = "urwid/vterm.py"
 MUTANTS = [
+    Mut("autowrap-clears-pending-wrap-blindly", _V, "TermCanvas.push_cursor", "                self.is_rotten_cursor = x >= self.width\n", "                self.is_rotten_cursor = False\n", "PASS|vterm.TermCanvas.push_cursor|pending wrap cleared"),
+    Mut("twin-autowrap-pending-not-form", _V, "TermCanvas.push_cursor", "                self.is_rotten_cursor = x >= self.width\n", "                self.is_rotten_cursor = not x < self.width\n", twin=True),
     Mut("scrollback-view-old-width", _V, "TermCanvas.content", "                if (padding := self.width - len(line)) > 0:\n                    yield line + [self.empty_char()] * padding\n                else:\n                    yield line[: self.width]\n", "                yield line\n", "PASS|vterm.TermCanvas.content"),
     Mut("resize-keeps-scrolling-up", _V, "TermCanvas.resize", "        self.scrolling_up = min(self.scrolling_up, len(self.scrollback_buffer))\n", "", "PASS|vterm.TermCanvas.resize"),
     Mut("twin-resize-clamp-if-form", _V, "TermCanvas.resize", "        self.scrolling_up = min(self.scrolling_up, len(self.scrollback_buffer))\n", "        self.scrolling_up = min(len(self.scrollback_buffer), self.scrolling_up)\n", twin=True),
